@@ -108,8 +108,10 @@ theorem empty_valid : (⟨Heap.empty, []⟩ : State κ α).Valid := fun _ hr => 
 
 /-! ### two derivations from one base -/
 
-/-- FULL statement (not proved, see notes/C01.md): two derivations `o1`, `o2` whose arguments live in the pool of `s`
-    give the same two values whichever is performed first. -/
+/-- The statement over merely `Valid` states (kept for reference; NOT claimed: a `Valid` state may contain slices that run
+    past the end of their array, which read fewer cells than `len`).  The theorem that IS proved is
+    `derivations_commute` in Props/C01Refine.lean: the same conclusion for every `State.Bounded` state, and
+    `derivations_commute_reachable` for every state reachable from the empty one (where `Bounded` is an invariant). -/
 def derivations_commute_full (E : Env α) : Prop :=
   ∀ (s : State κ α), s.Valid → ∀ (o1 o2 : Op κ α), o1.current = true → o2.current = true →
   ∀ h1 r1 h2 r2 h12 r2' h21 r1',
@@ -120,9 +122,8 @@ def derivations_commute_full (E : Env α) : Prop :=
 
 /-- **derivations_commute_partial.** The part of the statement that is about interference: in either order, the
     derivation performed first is not influenced by the one performed second, and the base (every mesh of the pool)
-    is influenced by neither.  What is missing for the full statement is that the value an operation returns does not
-    depend on where the heap happens to put its arrays (`obs h1 r1 = obs h21 r1'`); that part is checked on the
-    implementation by the `c01.holds.rederive` oracle and, for `Append`, by the value-level correspondence. -/
+    is influenced by neither.  The other half — the value an operation returns does not depend on where the heap happens
+    to put its arrays (`obs h1 r1 = obs h21 r1'`) — is `op_refines` / `derivations_commute` in Props/C01Refine.lean. -/
 theorem derivations_commute_partial (E : Env α) (s : State κ α) (vs : s.Valid) (o1 o2 : Op κ α)
     (c1 : o1.current = true) (c2 : o2.current = true)
     (h1 : Heap κ α) (r1 : MeshRep) (h2 : Heap κ α) (r2 : MeshRep)
